@@ -58,6 +58,17 @@ void imm_tok__r(struct instr *instr_buffer, char *imme)
   TOKR_FRAME(instr_buffer) TOKR_BUF
   __CPROVER_ensures(instr_buffer->imm && OPT_REL(instr_buffer) && KEEP_MEM(instr_buffer) && KEEP_ENC(instr_buffer) && KEEP_SLOTS_BUT(instr_buffer, -1));
 
+/* the same contract in enforcement form, on a wrapper that receives the line buffer and an offset (the leaf takes an
+ * interior pointer, which is_fresh cannot produce): proves the frame of imm_tok (it tokenises with strtok_r: a static
+ * tokenizer state would be a write outside the frame) */
+void w_imm_tok(struct instr *instr_buffer, char *buf, int off);
+void w_imm_tok__e(struct instr *instr_buffer, char *buf, int off)
+  __CPROVER_requires(__CPROVER_is_fresh(instr_buffer, sizeof(struct instr)) && __CPROVER_is_fresh(buf, FILTERED_STR_LEN) && buf[FILTERED_STR_LEN - 1] == 0 && g_buf == buf)
+  __CPROVER_requires(off >= 0 && off < FILTERED_STR_LEN && get_operand_type(buf + off) == 'i')
+  __CPROVER_assigns(__CPROVER_object_whole(instr_buffer), __CPROVER_object_whole(buf))
+  __CPROVER_ensures(buf[FILTERED_STR_LEN - 1] == 0)
+  __CPROVER_ensures(instr_buffer->imm && OPT_REL(instr_buffer) && KEEP_MEM(instr_buffer) && KEEP_ENC(instr_buffer) && KEEP_SLOTS_BUT(instr_buffer, -1));
+
 /* leaf: memory operand in slot opd_pos: memory flags, the index-register string of that slot, mod_disp */
 int mem_tok__r(struct instr *instr_buffer, char *mem, int opd_pos)
   TOKR_PRE(instr_buffer, mem)
